@@ -56,6 +56,13 @@ def pre(tier):
     return res
 
 
+# imported call-protocol jobs: the same real functions carry this property's clause in another unit's harness
+import importlib as _il
+JOBS = list(JOBS) + [j for j in _il.import_module("units.c08").JOBS if j.name in ('c08.wait',)]
+JOBS = list(JOBS) + [j for j in _il.import_module("units.c05").JOBS if j.name in ('c05.block_on_queue',)]
+JOBS = list(JOBS) + [j for j in _il.import_module("units.c06").JOBS if j.name in ('c06.block_on_stack',)]
+JOBS = list(JOBS) + [j for j in _il.import_module("units.c01").JOBS if j.name in ('c01.create',)]
+JOBS = list(JOBS) + [j for j in _il.import_module("units.c02").JOBS if j.name in ('c02.yield',)]
 META = {
  "level": "proof",
  "level_text": "Two contract checks on the real text. (1) CBMC: for every 64-bit stack address myth_make_context_empty / "
